@@ -415,6 +415,85 @@ def r6(ctx):
              key='representative-umi', witness=bad, what='Molecule.update_umi: tie between equally frequent UMIs is resolved to the later one')
 
 
+@rule('C06', 'C06-R7', 'the primitives the grouping rests on: (a) the UMI distance is symmetric, 0 for identical strings and counts every position where two called bases differ '
+                       '(evaluated for all pairs of short strings over A/C/N); (b) a fragment whose span is known is valid whatever the coordinates are - also at '
+                       'reference position 0 (evaluated over spans with None / 0 / positive entries); (c) the bucket key (match_hash) of the plain Fragment holds only what '
+                       'its __eq__ requires to be equal (cell, strand, contig): a key with one span end separates fragments that __eq__ joins through the other end')
+def r7(ctx):
+    import itertools
+    from ..consteval import run_function, Raised, Unfoldable, LocalFn
+    from .slots import SEQUTILS
+    # (a)
+    h = ctx.fn(SEQUTILS, 'hamming_distance')
+    words = [''.join(w) for n_ in (1, 2) for w in itertools.product('ACN', repeat=n_)]
+    bad, n = None, 0
+    try:
+        for a, b in itertools.product(words, repeat=2):
+            if len(a) != len(b):
+                continue
+            n += 1
+            d1, d2 = run_function(h, [a, b]), run_function(h, [b, a])
+            called = sum(1 for x, y in zip(a, b) if x != y and 'N' not in (x, y))
+            if d1 != d2:
+                bad = f'hamming_distance({a!r}, {b!r}) = {d1} but hamming_distance({b!r}, {a!r}) = {d2}: whether two UMIs are linked depends on which of them arrived first'
+            elif a == b and d1 != 0:
+                bad = f'hamming_distance({a!r}, {a!r}) = {d1}'
+            elif d1 < called:
+                bad = f'hamming_distance({a!r}, {b!r}) = {d1} although {called} called bases differ'
+            if bad:
+                break
+        ctx.emit('C06-R7', bad is None, SEQUTILS, h, f'hamming_distance over {n} pairs of words over A/C/N: symmetric, 0 on identical words, at least the number of differing called bases' if bad is None else bad,
+                 key='umi-distance-symmetric', what='hamming_distance: the UMI distance is not symmetric / does not count differing bases')
+    except (Unfoldable, Raised, Exception) as e_:
+        ctx.emit('C06-R7', False, SEQUTILS, h, f'hamming_distance is outside the interpreted subset ({type(e_).__name__}: {e_})', key='umi-distance-symmetric', undecided=True)
+    ctx.counters['interpreted_cases'] = ctx.counters.get('interpreted_cases', 0) + n
+    # (b)
+    v = ctx.fn(FRAGMENT, 'Fragment.has_valid_span')
+    meths = {m.name: m for m in ctx.ix.cls(FRAGMENT, 'Fragment').body if isinstance(m, ast.FunctionDef)}
+    bad, n = None, 0
+    try:
+        for span in itertools.product(('chr1', None), (None, 0, 7), (None, 0, 7, 12)):
+            for mx in (None, 6):
+                env = {'self.span': list(span), 'self.max_fragment_size': mx}
+                for mn_ in ('get_span', 'get_fragment_size'):
+                    if mn_ in meths:
+                        env['self.' + mn_] = LocalFn(meths[mn_], env, bound='<self>')
+                n += 1
+                try:
+                    got = run_function(v, ['<self>'], env=env)
+                except Raised as r_:
+                    got = f'raises {r_.name}'
+                want = None not in span and (mx is None or abs(span[2] - span[1]) <= mx)
+                if got is not want and bad is None:
+                    bad = f'has_valid_span() of a fragment with span {span} (max_fragment_size={mx}) is {got}, expected {want}' + (': position 0 is a coordinate, not "missing"' if 0 in span and want else '')
+        ctx.emit('C06-R7', bad is None, FRAGMENT, v, f'has_valid_span over {n} spans (entries None / 0 / positive, with and without size limit): valid iff no entry is None and the size is within the limit' if bad is None else bad,
+                 key='valid-span-at-zero', what='Fragment.has_valid_span: a fragment at reference position 0 (or another legal span) is treated as having no span')
+    except (Unfoldable, Exception) as e_:
+        ctx.emit('C06-R7', False, FRAGMENT, v, f'has_valid_span is outside the interpreted subset ({type(e_).__name__}: {e_})', key='valid-span-at-zero', undecided=True)
+    ctx.counters['interpreted_cases'] += n
+    # (c)
+    init = ctx.fn(FRAGMENT, 'Fragment.__init__')
+    allowed = {'self.sample', 'self.strand', 'self.span[0]', 'self.get_span()[0]', 'self.get_strand()', 'self.get_sample()'}
+    keys = [s_ for s_ in walk_no_nested(init) if isinstance(s_, ast.Assign) and any(src(t) == 'self.match_hash' for t in s_.targets) and not (isinstance(s_.value, ast.Constant) and s_.value.value is None)]
+    nb = 0
+    for s_ in keys:
+        comps = [src(e) for e in s_.value.elts] if isinstance(s_.value, ast.Tuple) else None
+        if comps is None:
+            ctx.emit('C06-R7', False, FRAGMENT, s_, f'Fragment.__init__ sets the bucket key `{src(s_.value)}`: not a tuple display', key='plain-fragment-bucket-key', undecided=True)
+            continue
+        ends = [c for c in comps if 'span[1' in c or 'span[2' in c or 'span[:' in c or 'span[-' in c]
+        other = [c for c in comps if c not in allowed and c not in ends]
+        if ends:
+            nb += 1
+            ctx.emit('C06-R7', False, FRAGMENT, s_, f'Fragment.__init__ puts {ends} into the bucket key {comps}: Fragment.__eq__ joins two fragments when EITHER span end lies within the radius, '
+                     f'so copies of one molecule that share only the other end are kept in different buckets and never compared', key='plain-fragment-bucket-key',
+                     what='Fragment: bucket key (match_hash) contains a span end that __eq__ does not require to be equal')
+        elif other:
+            ctx.emit('C06-R7', False, FRAGMENT, s_, f'Fragment.__init__ bucket key {comps}: cannot show that {other} are equal for all fragments __eq__ joins', key='plain-fragment-bucket-key', undecided=True)
+    if not nb:
+        ctx.emit('C06-R7', True, FRAGMENT, init, 'the plain Fragment has no bucket key (one bucket)' if not keys else f'bucket key of the plain Fragment holds only {sorted(allowed)}', key='plain-fragment-bucket-key', nontrivial=bool(keys))
+
+
 META = {
     'text': ('Decides structural clauses: the duplicate bit written by Molecule.write_tags is assigned `rank > 0` to every read of every fragment for '
              'the abstract ranks 0, 1, >=2 on every path (hence independent of flags carried by the input; re-tagging is idempotent in that bit); af, RC and TF '
